@@ -2,6 +2,7 @@ import SimVerif.Driver.Nms
 import SimVerif.Driver.Constr
 import SimVerif.Driver.Vote
 import SimVerif.Driver.Feat
+import SimVerif.Driver.Geom
 open SimVerif SimVerif.Wire SimVerif.Driver
 
 structure DState where
@@ -14,6 +15,8 @@ def step (st : DState) (line : String) : DState × String :=
   match req with
   | "case" :: _ => ({}, "C")
   | "nms" :: args => (st, NmsD.handle args impl)
+  | "box" :: args => (st, GeomD.handleBox args impl)
+  | "geom" :: args => (st, GeomD.handleGeom args impl)
   | "feat" :: args => (st, FeatD.handle args impl)
   | "vote" :: args => (st, VoteD.handle args impl)
   | "constr" :: args => let (s, r) := ConstrD.handle st.constr args impl; ({ st with constr := s }, r)
